@@ -887,6 +887,81 @@ func runC13(c *Ctx) {
 		}
 		c13judgeLayer(rec, fmt.Sprintf("random/%d", i%50), hs)
 	})
+	// ---- the IV rule is a rule per layer: IV in one layer and Partial IV in ANOTHER layer of the same message
+	// (body and a signer, two signers, a message and a countersignature in its header) is conforming in both
+	// directions ----
+	{
+		iv, piv := []byte("iv-value"), []byte("piv")
+		for first := 0; first < 2; first++ { // which of the two the first layer holds
+			for b1 := 0; b1 < 2; b1++ { // bucket in the first layer
+				for b2 := 0; b2 < 2; b2++ { // bucket in the second layer
+					la, lb := int64(5), int64(6)
+					va, vb := iv, piv
+					if first == 1 {
+						la, lb, va, vb = 6, 5, piv, iv
+					}
+					mkH := func(label int64, v []byte, bucket int, alg bool) cose.Headers {
+						h := cose.Headers{Protected: cose.ProtectedHeader{}, Unprotected: cose.UnprotectedHeader{}}
+						if alg {
+							h.Protected[int64(1)] = cose.AlgorithmES256
+						}
+						if label != 0 {
+							if bucket == 0 {
+								h.Protected[label] = v
+							} else {
+								h.Unprotected[label] = v
+							}
+						}
+						return h
+					}
+					type built struct {
+						name string
+						enc  func() ([]byte, error)
+						dec  func(b []byte) error
+					}
+					sig := []byte{1, 2, 3}
+					cases := []built{
+						{"body+second-signer", func() ([]byte, error) {
+							m := &cose.SignMessage{Headers: mkH(la, va, b1, false), Payload: []byte("p"), Signatures: []*cose.Signature{{Headers: mkH(0, nil, 0, true), Signature: sig}, {Headers: mkH(lb, vb, b2, true), Signature: sig}}}
+							return m.MarshalCBOR()
+						}, func(b []byte) error { var m cose.SignMessage; return m.UnmarshalCBOR(b) }},
+						{"first-signer+third-signer", func() ([]byte, error) {
+							m := &cose.SignMessage{Headers: mkH(0, nil, 0, false), Payload: []byte("p"), Signatures: []*cose.Signature{{Headers: mkH(la, va, b1, true), Signature: sig}, {Headers: mkH(0, nil, 0, true), Signature: sig}, {Headers: mkH(lb, vb, b2, true), Signature: sig}}}
+							return m.MarshalCBOR()
+						}, func(b []byte) error { var m cose.SignMessage; return m.UnmarshalCBOR(b) }},
+						{"sign1+countersignature-in-its-header", func() ([]byte, error) {
+							h := mkH(la, va, b1, true)
+							h.Unprotected[int64(11)] = &cose.Countersignature{Headers: mkH(lb, vb, b2, true), Signature: sig}
+							m := &cose.Sign1Message{Headers: h, Payload: []byte("p"), Signature: sig}
+							return m.MarshalCBOR()
+						}, func(b []byte) error { var m cose.Sign1Message; return m.UnmarshalCBOR(b) }},
+					}
+					for _, cs := range cases {
+						cell := fmt.Sprintf("iv-pair-across-layers/%s/first=%d/bucket1=%d/bucket2=%d", cs.name, la, b1, b2)
+						in := map[string]any{"cell": cell}
+						var out []byte
+						var eerr, derr error
+						if guard(rec, "iv pair across layers", in, func() {
+							out, eerr = cs.enc()
+							if eerr == nil {
+								derr = cs.dec(out)
+							}
+						}) {
+							continue
+						}
+						rec.Eval(1)
+						rec.Event("iv-pair-across-layers")
+						rec.Class(cell)
+						if eerr != nil {
+							rec.Violate("refused-conforming", cell, "a message whose layers each obey the IV rule is refused on encode: "+eerr.Error(), in)
+						} else if derr != nil {
+							rec.Violate("produced-not-decodable", cell, "encoded, then refused by the decoder: "+derr.Error()+" "+hexs(out), in)
+						}
+					}
+				}
+			}
+		}
+	}
 	rec.Require("cells", 5000)
 	rec.Require("cells:conforming", 1000)
 	rec.Require("cells:violating", 1000)
